@@ -12,8 +12,8 @@ from concurrent.futures import ThreadPoolExecutor
 import vlib
 
 KINDS = {
-    "C05": ["Rebootstrap", "ResumeOlder", "ResumeNewer", "Unattested", "ApplyMismatch", "ApplyOrder", "ApplyNotDurable", "Panic", "NoConverge", "SnapshotConfStale", "SnapshotLabel"],
-    "C03": ["AckedLost", "NeverSubmitted", "ContentsVsLog", "Panic", "Rebootstrap", "ResumeNewer", "SnapshotLabel"],
+    "C05": ["Rebootstrap", "ResumeOlder", "ResumeNewer", "Unattested", "ApplyMismatch", "ApplyOrder", "ApplyNotDurable", "Panic", "NoConverge", "SnapshotConfStale", "SnapshotLabel", "SnapshotContents"],
+    "C03": ["AckedLost", "NeverSubmitted", "ContentsVsLog", "Panic", "Rebootstrap", "ResumeNewer", "SnapshotLabel", "SnapshotContents"],
 }
 POINTS = ["ready", "send1", "presave", "saved", "applied", "send2", "preadvance", "advanced"]
 
@@ -29,7 +29,7 @@ def scenarios(ctx):
         k += 1
         sc = dict(n=3, seed=seed + k, ops=6, opsafter=3, drop=0.0, dup=0.0, delay=0.0, crashnode=0, crashcycle=0,
                   crashpoint="", crash2=0, restartpeers="all", snapshotat=0, partition=0, follower=False, dropsnap=0,
-                  stepdown="", crashwhen="", initial=0, conf="")
+                  stepdown="", crashwhen="", initial=0, conf="", slowsnapms=0)
         sc.update(kw)
         out.append(sc)
     # every boundary of the ready cycle x role x a few cycle numbers (RaftHost!CrashPts x Cycle)
@@ -76,6 +76,11 @@ def scenarios(ctx):
     # the snapshot has to label the snapshot with what it contains), then a crash and a restart from it
     for j in range(2 if quick else 6):
         add(n=1 if j % 2 else 3, ops=118 + 7 * j, snapshotat=112 + 5 * j, crashnode=-1 if j % 2 == 0 else 1, crashcycle=1, crashpoint="never (the node dies idle, after the client phase)", opsafter=3)
+    # serializing the state machine takes a while (a large index) and the client keeps writing: the snapshot is
+    # labelled with the index whose state it holds (SnapshotContents), also the one a restart then starts from
+    for j in range(3 if quick else 10):
+        add(n=1 if j % 3 == 2 else 3, ops=7 + j % 3, snapshotat=3 + j % 2, slowsnapms=40 + 20 * (j % 3), opsafter=3,
+            crashnode=(-1 if j % 2 else -2) if j % 3 != 2 else 1, crashcycle=1, crashpoint="never (the node dies idle, after the client phase)")
     add(n=1, ops=4, opsafter=0)
     add(n=3, ops=6, follower=True)
     return out
